@@ -3,7 +3,7 @@ import os, sys
 from . import core
 
 
-TRANSLATORS = [("election", "Election.lean"), ("txskel", "TxSkel.lean")]
+TRANSLATORS = [("election", "Election.lean"), ("txskel", "TxSkel.lean"), ("adapterpin", "AdapterPin.lean")]
 
 
 def regen():
